@@ -25,12 +25,12 @@ K = 10000
 BASE = dict(ActStrict=True, ShiftByMin=True, LatentCPs=set(), DoEmit=True, Shard=0, NShards=1)
 DEEP_SHARDS = 64          # deep3 has about a million inputs (each exported with ~10 descriptions): one shard of 64 by VERIF_SEED
 CFG = {
-    "quick2": dict(Temps={0, 100, 200}, CPs={1, 2}, DTCs={0, 50}, MaxStreams=2, NZones=2, Ladders={0, 1, 2, 3, 4, 6, 7, 8}),
-    "quick3": dict(Temps={0, 100, 200}, CPs={1, 2}, DTCs={0, 50}, MaxStreams=3, NZones=2, Ladders={0, 1, 2}),
+    "quick2": dict(Temps={0, 100, 200}, CPs={1, 2}, DTCs={0, 50}, MaxStreams=2, NZones=2, Ladders={0, 1, 2, 3, 4, 6, 7, 8, 9}),
+    "quick3": dict(Temps={0, 100, 200}, CPs={1, 2}, DTCs={0, 50}, MaxStreams=3, NZones=2, Ladders={0, 1, 2, 4, 9}),
     "near": dict(Temps={120, 130, 140}, CPs={1, 2}, DTCs={0}, MaxStreams=2, NZones=2, Ladders={5}),
     # isothermal (latent) streams: 1-unit wide in the specification, passed with supply == target where the code's own rule applies
     "latent": dict(Temps={0, 100, 200}, CPs={1}, DTCs={0, 50}, LatentCPs={150}, MaxStreams=2, NZones=2, Ladders={0, 2}),
-    "deep3": dict(Temps={0, 100, 200, 300}, CPs={1, 2}, DTCs={0, 50}, MaxStreams=3, NZones=3, Ladders={0, 1, 2, 3, 4, 6, 7, 8}),
+    "deep3": dict(Temps={0, 100, 200, 300}, CPs={1, 2}, DTCs={0, 50}, MaxStreams=3, NZones=3, Ladders={0, 1, 2, 3, 4, 6, 7, 8, 9}),
 }
 EMB_BASE = Emb("native", 100.0, 0.01, 1.0, True)
 EMB_SHIFT = Emb("native-101.5K", -1.5, 0.01, 1.0, True)   # lattice 150 (a ladder level / stream bound) maps to exactly 0.0
@@ -209,7 +209,7 @@ def one_run(g, S, z, ladder, emb, extra_checks, twin=0):
             run["err"] = "non-finite number in a record"
         else:
             run["recs"] = recs
-        if g in ("base", "perm", "split", "parallel", "zoneswap", "translate", "scale", "tree", "community"):
+        if g in ("base", "perm", "split", "split2", "parallel", "zoneswap", "translate", "scale", "tree", "community"):
             run["gsig"] = graph_signature(out, emb)
         if extra_checks:
             # C14 structural clauses that are about the Python object, not about numbers
@@ -352,9 +352,9 @@ def site_leg(run, tier, names, accept):
         run.add_tlc(res, "SiteGen/" + name)
         cases = res.cases
         if name == "quick2":
-            cases = sample(cases, 1200, 2)
+            cases = sample(cases, 1350, 2)
         if name == "quick3":
-            cases = sample(cases, 200, 3)
+            cases = sample(cases, 300, 3)
         if name == "latent":
             cases = sample(cases, 150 if tier == "quick" else 2000, 6)
         if name == "deep3":
